@@ -7,6 +7,7 @@
 package memberlist
 
 import (
+	"bufio"
 	"bytes"
 	"fmt"
 	"net"
@@ -14,6 +15,7 @@ import (
 	"time"
 
 	"github.com/google/btree"
+	"github.com/hashicorp/go-msgpack/v2/codec"
 )
 
 // VerifEncryptPayload wraps encryptPayload.
@@ -789,4 +791,21 @@ func VerifWireDecode(kind string, body []byte) (VerifWire, error) {
 // VerifPushPullScale wraps pushPullScale.
 func VerifPushPullScale(interval time.Duration, n int) time.Duration {
 	return pushPullScale(interval, n)
+}
+
+// VerifReadRemoteState runs readRemoteState on the bytes that follow the pushPullMsg type byte of a
+// plaintext state exchange, with a reader and decoder set up as readStream does.
+func VerifReadRemoteState(m *Memberlist, body []byte) (bool, []VerifPushNodeState, []byte, error) {
+	var bufConn = bufio.NewReader(bytes.NewReader(body))
+	hd := codec.MsgpackHandle{}
+	dec := codec.NewDecoder(bufConn, &hd)
+	join, nodes, user, err := m.readRemoteState(bufConn, dec)
+	if err != nil {
+		return false, nil, nil, err
+	}
+	out := make([]VerifPushNodeState, len(nodes))
+	for i, n := range nodes {
+		out[i] = VerifPushNodeState{Name: n.Name, Addr: n.Addr, Port: n.Port, Meta: n.Meta, Incarnation: n.Incarnation, State: n.State, Vsn: n.Vsn}
+	}
+	return join, out, user, nil
 }
